@@ -699,7 +699,9 @@ func TestCheck(t *testing.T) {
 
 	// hand-written layouts first (so that the simplest witnesses are the ones recorded)
 	b16, b32, b64 := numFmt{"big16", 16}, numFmt{"big32", 32}, numFmt{"big64", 64}
-	sizedT := func(verb byte, enc int, f numFmt) *textSpec { return &textSpec{verb: verb, enc: enc, sized: true, size: f} }
+	sizedT := func(verb byte, enc int, f numFmt) *textSpec {
+		return &textSpec{verb: verb, enc: enc, sized: true, size: f}
+	}
 	delimT := func(verb byte, enc int, d string) *textSpec { return &textSpec{verb: verb, enc: enc, delim: []byte(d)} }
 	fixed := []*layoutSpec{
 		{layout: "%T{big16}%t%K{big32}%k%V{big32}%v%H{big16}%h{%K{big16}%k%V{big32}%v}%p{big32}%o{big64}%d{big64}%e{big32}%x{big64}%y{big16}",
